@@ -356,7 +356,16 @@ func splitChecks(text string, expPieces [][2]int) string {
 
 // checkLexOne runs all lexer-level checks on one concrete text.
 func checkLexOne(res *Result, prop string, text string, exp []cTok, expPieces [][2]int, extra any) {
-	toks := parser.Scan(text)
+	var toks []parser.Token
+	if p, st := guarded(text, "Scan/SplitStatements", func() {
+		toks = parser.Scan(text)
+		parser.SplitStatements(text)
+		parser.Parse(text)
+	}); p != nil {
+		res.violate(Violation{Property: prop, Kind: "panic", InputB64: b64(text), Extra: map[string]any{"stack": st[:min(len(st), 1200)], "case": extra},
+			Reason: fmt.Sprintf("Scan / SplitStatements / Parse panicked: %v", p)})
+		return
+	}
 	if prop == "C09" {
 		got := make([]cTok, len(toks))
 		for i, t := range toks {
